@@ -401,15 +401,20 @@ def run(ctx):
              'TLS x provider server (own/shared http/shared https) x consumer mode (none/optional/enforced/enforced '
              'without container) x consumer sink server, alternative host names, device-address variant and history '
              'drawn at random; thorough: the full product of 864 configurations, the 432 that reach start_all twice) driven through start-up, a random list of '
-             'probe/getmdib/operate/notify/renew/getstatus/unsubscribe+subscribe and one of two shutdown orders; the set '
+             'probe/getmdib/operate/notify/renew/getstatus/unsubscribe+subscribe, consumer life-cycle segments (restart(), or '
+             'stop_all - optionally another kind of peer (TLS <-> plaintext) answers at the provider address - start_all / '
+             'restart(); every consumer with a TLS container gets at least one such history per core configuration) and one of '
+             'two shutdown orders; the outcome of every start attempt and the set '
              'of events (addresses by carrying element, SOAP clients by ssl_context argument, connection objects, '
-             'connection attempts, wrap_socket calls) and the start-up statuses are compared with Tls.Model.run_case; '
+             'connection attempts, wrap_socket calls) and the final is_ssl_connection are compared with Tls.Model.run_case; '
              'distinct = distinct (statuses, event set). ctxflags / clientcls: exhaustive over their argument spaces.',
         assumptions=['the TLS handshake is abstracted: a TLS client meeting a plaintext port gets ssl.SSLError on connect, a '
                      'plaintext client meeting a TLS port has its first request reset (matches the behaviour pinned by '
                      'tests/test_client_device.py TestEncryptionCombinations)',
                      'an application-supplied shared HTTP server is TLS exactly when its base_url says https',
-                     'the subscription managers\' 1 s polling loops do not run during a scenario (time.sleep rebound)'],
+                     'the subscription managers\' 1 s polling loops do not run during a scenario (time.sleep rebound)',
+                     'a stopped consumer is not used by the application until it is started again; the kind of the peer at the '
+                     'provider address changes only while the consumer is stopped'],
         trusted_base=['correspondence harness harness/impl/c19_impl.py on harness/world.py: replaces the TCP connection '
                       '(after asking the real SoapClient._mk_http_connection what it would open), socketserver\'s TCP server '
                       'inside httpserverimpl (HttpServerThreadBase.run stays real) and wraps the SSLContext objects in '
